@@ -351,7 +351,10 @@ C2T_Eof(c) ==
 \* the client reset the connection: the read fails (ECONNRESET)
 C2T_ReadErr(c) ==
   /\ st[c].pa = "copy" /\ st[c].left = <<>> /\ st[c].crst
-  /\ Step(c, [st[c] EXCEPT !.cerr = "read", !.pa = "drain"], ob[c], "C2T_ReadErr", 0)
+  /\ IF st[c].terr /\ ~st[c].trst
+     \* the pending socket error was already reported to the target->client write: this read sees end of stream
+     THEN Step(c, [st[c] EXCEPT !.pa = "closerd"], ob[c], "C2T_EofAfterReset", 0)
+     ELSE Step(c, [st[c] EXCEPT !.cerr = "read", !.pa = "drain"], ob[c], "C2T_ReadErr", 0)
 \* :305-308 "Drain to prevent a close in the case of a cipher error": io.Copy(io.Discard, clientConn) where clientConn
 \* is the DECRYPTING connection.  After a cipher error the next 2+tag bytes fail again at once.
 DrainTake(c) ==
@@ -595,8 +598,10 @@ ExpectedStatus(s, o) ==
   ELSE IF s.tk = "deny" THEN {"ERR_ADDRESS"}
   ELSE IF s.tk = "refuse" THEN {"ERR_CONNECT"}
   ELSE IF o.cancelled THEN {"ERR_CONNECT", "ERR_RELAY_CLIENT", "ERR_RELAY_TARGET", "OK"}
-  ELSE IF s.crst /\ s.trst THEN {"ERR_RELAY_CLIENT", "ERR_RELAY_TARGET"}      \* both peers reset: either error may win
-  ELSE IF OHasBad(o) \/ s.crst THEN {"ERR_RELAY_CLIENT"}
+  \* the client reset the connection: the socket error is delivered once, to the read (client->target copy) or to the write
+  \* (target->client copy), whichever comes first; the other one sees a plain end of stream.  Never OK.
+  ELSE IF s.crst THEN {"ERR_RELAY_CLIENT", "ERR_RELAY_TARGET"}
+  ELSE IF OHasBad(o) THEN {"ERR_RELAY_CLIENT"}
   \* the target closed completely: the first chunk written after that is lost silently, the second write fails
   ELSE IF s.tcl # "no" THEN (IF o.afterClose >= 2 THEN {"ERR_RELAY_CLIENT"} ELSE {"OK", "ERR_RELAY_CLIENT"})
   ELSE IF s.trst THEN {"ERR_RELAY_CLIENT", "ERR_RELAY_TARGET"}
